@@ -128,12 +128,33 @@ func runC15(s *core.Sim, tier string) RunInfo {
 			// virtual time is free, the request bound is what limits the search
 			budget += time.Duration(bound+10) * 3 * time.Second
 		}
+		// sometimes another candidate is delivered at the same time: a forged header just below the
+		// judged one, whose own search (over heights below it) is refused in the end. Deliveries are
+		// taken one after the other; the judged candidate is owed its verdict all the same
+		var distractor *core.Task
+		if failAt == 0 && D >= 3 && s.Tape.Coin("concurrent-candidate", 1, 3) {
+			forged := simhdr.ForgeSig(w.Ch.At(S+D-1), uint64(100+r))
+			distractor = s.Go("candidate-concurrent-forged", func() {
+				c, cancel := context.WithTimeout(ctx, budget)
+				defer cancel()
+				_ = w.Sub.Deliver(c, forged)
+			})
+			budget *= 2
+			s.Probe("concurrent-candidate")
+		}
 		var err error
 		t, fin := s.Do(fmt.Sprintf("candidate-%s", kind), budget, func() {
 			c, cancel := context.WithTimeout(ctx, budget)
 			defer cancel()
 			err = w.Sub.Deliver(c, cand)
 		})
+		if distractor != nil {
+			if stuck := s.Settle(budget, distractor); len(stuck) > 0 && fin {
+				s.Violate("bifurcation-did-not-terminate", map[string]string{"candidate": "concurrent-forged"}, "the concurrently delivered forged candidate at distance %d: the verifier did not return within %v", D-1, budget)
+				break
+			}
+			bound *= 2
+		}
 		rounds++
 		calls := w.G.Count("GetByHeight") - calls0
 		hist = append(hist, fmt.Sprintf("S=%d D=%d %s direct=%v failAt=%d hit=%v -> err=%v calls=%d", S, D, kind, direct, failAt, hit, err != nil, calls))
